@@ -9,6 +9,9 @@
     for ever (`C05_realises_run`).  Proved here for SMA, EMA (the kinds the indicators use by default), WMA and RMA (SMA: arithmetic mean
     of the last `n` values with the construction value as prehistory; EMA: the recurrence with α = 2/(n+1));
     the other kinds' machines are related to their formulas in C02/C03 and compose the same way.
+  * EVERY kind realises its documented formula (`C05_every_kind_realises`: the C02/C03/C04 run theorems of all 15 kinds
+    lifted to the configurable average), so the `Realises` hypotheses of the step theorems below can be discharged for
+    every configuration; done for MACD from its constructor (`C05_macd_init_every_kind`).
   * MACD (every stream, every pair of realised averages): value 0 is `f₁(sources) − f₂(sources)`, value 1 is
     `f₃` of the history of value 0 (`C05_macd_step`, an invariant step lifted over candle lists by `runM_invariant`).
   * Donchian channel, from `init`, over every candle list: the bounds are a greatest / least element of the last `n`
@@ -57,6 +60,7 @@ import YataProofs.Indicators.Irrational
 import YataProofs.Indicators.Tier2
 import YataProofs.Indicators.Tier2b
 import YataProofs.Indicators.Realises2
+import YataProofs.Indicators.RealisesEvery
 namespace Yata.C05
 open Yata Yata.Ind
 
@@ -280,6 +284,16 @@ theorem C05_rma_realises {P n : Nat} (v : ℚ) (hn0 : 0 < n) :
     ∃ m, MA.init P { kind := .rma, length := n } v = .ok m ∧ Realises (fun h => Spec.emaRec (1 / (n : ℚ)) v h) m [] :=
   rma_realises v hn0
 
+theorem C05_every_kind_realises {P : Nat} (k : MAKind) (n : Nat) (v : ℚ) (h : validLen P k n) :
+    ∃ m, MA.init P { kind := k, length := n } v = .ok m ∧ Realises (specOf k n v) m [] := every_kind_realises k n v h
+
+theorem C05_macd_init_every_kind {P : Nat} (c : MACDCfg) (k : Candle ℚ) (hv : MACD.validate c = true)
+    (h1 : validLen P c.ma1.kind c.ma1.length) (h2 : validLen P c.ma2.kind c.ma2.length)
+    (h3 : validLen P c.signal.kind c.signal.length) :
+    ∃ s, MACD.init P c k = .ok s ∧ s.cfg = c ∧
+      MACD.Inv (specOf c.ma1.kind c.ma1.length (k.source c.source)) (specOf c.ma2.kind c.ma2.length (k.source c.source))
+        (specOf c.signal.kind c.signal.length 0) [] [] s := MACD.init_every_kind c k hv h1 h2 h3
+
 /-! non-vacuity: a reachable MACD state satisfies the invariant (both default averages are EMAs) -/
 example : ∃ m, MA.init 255 { kind := .ema, length := 12 } (100 : ℚ) = .ok m ∧
     Realises (fun h => Spec.emaRec (((2 : Nat) : ℚ) / ((12 + 1 : Nat) : ℚ)) 100 h) m [] :=
@@ -318,3 +332,5 @@ end Yata.C05
 #print axioms Yata.C05.C05_tsi_step
 #print axioms Yata.C05.C05_wma_realises
 #print axioms Yata.C05.C05_rma_realises
+#print axioms Yata.C05.C05_every_kind_realises
+#print axioms Yata.C05.C05_macd_init_every_kind
